@@ -4,8 +4,14 @@ import archlib
 
 ID = "C02"
 from genf import translate  # noqa: E402,F401  (regenerates lean/PyribsGen/Formulas.lean from the tree under check)
-PROOF_MODULES = ["PyribsProofs.C02", "PyribsGen.Formulas", "PyribsProofs.GenF"]
+PROOF_MODULES = ["PyribsProofs.C02", "PyribsGen.Formulas", "PyribsProofs.GenF", "PyribsGen.Control",
+                 "PyribsProofs.GenFArch"]
 THEOREMS = [
+    "Pyribs.GenFProofs.single_status_from_source",
+    "Pyribs.GenFProofs.single_value_from_source",
+    "Pyribs.GenFProofs.batch_status_from_source",
+    "Pyribs.GenFProofs.batch_value_from_source",
+    "Pyribs.GenFProofs.batch_single_agree_from_source",
     "Pyribs.GenFProofs.value_matches",
     "Pyribs.GenFProofs.batch_value_matches",
     "Pyribs.C02.judge_spec",
